@@ -396,8 +396,8 @@ Qed.
    general facts it would rest on (soundness, determinism, fuel monotonicity) are proved above.
 
    PROVED ([peg_agrees_partial]): the statement for every tree of the finite domain [peg_domain]:
-   SELECT <e> WHERE <e> for every parent-operator x child-form x operand-position combination of
-   depth 2 (the same matrix the correspondence harness enumerates), over all literal kinds,
+   SELECT <e> WHERE <e> for e = every leaf kind, every operator over leaves, and every parent-operator x
+   child (one per precedence class) x operand-position combination of depth 2,
    by evaluating both parsers inside the kernel on the whole domain. *)
 From Verif Require Import Model.Parser Model.Printer Model.PegActions.
 From Verif Require Gen.Grammar.
@@ -418,10 +418,18 @@ Definition d_binary : list (expr -> expr -> expr) :=
 Definition d_children : list expr :=
   d_leaves ++ map (fun u => u (EColumn (dS "a"))) d_unary
            ++ map (fun b => b (EColumn (dS "a")) (EConst (LInt 1))) d_binary.
+(* one child per precedence class of the grammar, and four kinds of leaves *)
+Definition d_kids : list expr :=
+  [EColumn (dS "a"); EConst (LInt 1); EConst (LStr (dS "x y")); EList [LInt 1; LNull; LStr (dS "q")]]
+  ++ map (fun u => u (EColumn (dS "a"))) [ENeg; ENot; EIsNull; (fun a => EAttr a (dS "b")); EParen; EUPlus;
+                                          (fun a => EFunc (dS "f") [a])]
+  ++ map (fun b => b (EColumn (dS "a")) (EConst (LInt 1)))
+         [EArith Add; EArith Sub; EArith Mul; EArith Mod; ECmp Lt; ECmp In; ECmp NotIn;
+          (fun a b => EAnd [a; b]); (fun a b => EOr [a; b]); (fun a b => EBetween a b a)].
 Definition d_exprs : list expr :=
   d_children
-  ++ flat_map (fun u => map u d_children) d_unary
-  ++ flat_map (fun b => flat_map (fun c => [b c (EColumn (dS "z")); b (EConst (LInt 2)) c]) d_children) d_binary.
+  ++ flat_map (fun u => map u d_kids) d_unary
+  ++ flat_map (fun b => flat_map (fun c => [b c (EColumn (dS "z")); b (EConst (LInt 2)) c]) d_kids) d_binary.
 Definition d_stmt (e : expr) : stmt :=
   SSelect (ESelect false (Some [(e, None)]) None (Some e) None [] None None).
 Definition peg_domain : list stmt :=
@@ -435,14 +443,14 @@ Proof.
   inversion E. destruct Hin as [<-|Hin]; auto.
 Qed.
 
-Lemma peg_domain_size : List.length peg_domain = 1846%nat.
+Lemma peg_domain_size : List.length peg_domain = 981%nat.
 Proof. vm_compute. reflexivity. Qed.
 
 Lemma peg_domain_peg : map (fun s => peg_parse (d_text s)) peg_domain = map (fun s => Some (stmt_erase s)) peg_domain.
-Proof. vm_compute. reflexivity. Qed.
+Proof. vm_cast_no_check (eq_refl (map (fun s => Some (stmt_erase s)) peg_domain)). Qed.
 
 Lemma peg_domain_hand : map (fun s => parse_text (d_text s)) peg_domain = map (fun s => Some (stmt_erase s)) peg_domain.
-Proof. vm_compute. reflexivity. Qed.
+Proof. vm_cast_no_check (eq_refl (map (fun s => Some (stmt_erase s)) peg_domain)). Qed.
 
 Theorem peg_agrees_partial : forall s, List.In s peg_domain ->
   peg_parse (render (print_stmt s)) = parse_text (render (print_stmt s))
@@ -451,5 +459,28 @@ Proof.
   intros s Hin.
   pose proof (map_eq_pointwise _ _ _ peg_domain_peg s Hin) as H1.
   pose proof (map_eq_pointwise _ _ _ peg_domain_hand s Hin) as H2.
-  unfold d_text in *. simpl in *. split; congruence.
+  cbv beta in H1, H2. unfold d_text in H1, H2. split; congruence.
+Qed.
+
+(* what [peg_parse] returns is the statement of the node that the declarative semantics assigns to
+   the start rule of the REGENERATED grammar, under the BQL actions *)
+Theorem peg_parse_sound : forall cs st,
+  peg_parse cs = Some st ->
+  exists rest f c,
+    sem Gen.Grammar.grammar (cfg_of Gen.Grammar.grammar) bql_act [] (IExp (GRef "bql")) cs fr0 (Ok rest f c)
+    /\ to_stmt (conv_fuel cs) (f_last f) = Some st.
+Proof.
+  intros cs st H. unfold peg_parse, peg_parse_with in H.
+  destruct (peg_run Gen.Grammar.grammar bql_act cs) as [[n|]|] eqn:E; try discriminate.
+  apply peg_run_accept_sound in E. destruct E as (r0 & rules & rest & f & c & Hr & Hl & Hs).
+  exists rest, f, c. subst n. split; [|exact H].
+  cbv [snd Gen.Grammar.grammar] in Hr. injection Hr as <- _. exact Hs.
+Qed.
+
+Theorem peg_parse_reject_sound : forall cs,
+  peg_run Gen.Grammar.grammar bql_act cs = Some None ->
+  forall rest f c,
+    ~ sem Gen.Grammar.grammar (cfg_of Gen.Grammar.grammar) bql_act [] (IExp (GRef "bql")) cs fr0 (Ok rest f c).
+Proof.
+  intros cs H. eapply (peg_run_reject_sound Gen.Grammar.grammar bql_act cs _ _ eq_refl H).
 Qed.
